@@ -522,13 +522,15 @@ class PlainCtx:
 
         return loader.mod(name)
 
-    def check(self, name, ok, clause="", detail="", witness=None, backend=None):
-        """record one (ground or bounded) obligation"""
+    def check(self, name, ok, clause="", detail="", witness=None, backend=None, concrete_input=None):
+        """record one (ground or bounded) obligation.  concrete_input: for symbolic (kind P) plain groups, whether the witness is a
+        concrete failing input of the real code (default: True for G/B groups, False for P groups)"""
         kind = self.spec.kind
         st = ("proved" if kind in ("G", "P") else "held") if ok else "refuted"
         self.results.append(mk_result("%s/%s" % (self.spec.name, name), clause, kind, st,
                                       backend or ("ground-eval" if kind in ("G", "P") else "runtime-contract"), 0.0,
                                       "" if ok else detail, witness=None if ok else witness))
+        self.results[-1]["concrete_input"] = (kind in ("G", "B")) if concrete_input is None else bool(concrete_input)
 
     def count(self, key=None, sample=None):
         self.evaluations += 1
